@@ -2,6 +2,9 @@
 """Regenerates MANIFEST.json from the table below (kept in one place so it is always valid)."""
 import json, os
 CLAIMED = {
+ 'C01': dict(technique='tables lifted from the T0 data blocks vs the IANA registry, concrete unrolling of the suite lookup in the T0 model, symbolic (affine) key-block offsets from the IR vs RFC 5246 6.3, reader/writer agreement rules',
+             text='Static clauses: suite tables of client and server equal the IANA registry and each other; every suite reaches the switch natives with the registry\'s mode, key length, MAC, PRF and tag length; the eight switch functions use the RFC 5246 key-block layout for both roles; premaster version writer/reader agree. Does not decide byte-exact delivery or buffering.',
+             note='Trusted: embedded IANA table, sa/t0ai.py, debug-info variable names.'),
  'C02': dict(technique='must-conjunct dataflow on the accept verdict of each decrypt method, hypothesis folding of the engine\'s rejection paths and of the record-length gates, exactly-once path rule for sequence numbers, call-order (dominance) rule',
              text='Static necessary conditions: a failed padding/MAC/tag/length contribution forces rejection in all four record decrypt methods; rejection is turned into BR_ERR_BAD_MAC / BAD_LENGTH with no payload released; length gates match the decrypt arithmetic; sequence numbers advance exactly once per record; GCM tags cover the ciphertext. Does not decide MAC values or which fields enter the MAC.',
              note='Trusted: clang/opt 14, sa/oblig.py, debug-info variable names as site selectors.'),
@@ -60,8 +63,8 @@ m = dict(
             source_commits=[], add_only=True),
  engines=[
   dict(name='IRF', path='tools/irdump.cc, sa/irf.py, sa/build.py', serves_properties=sorted(CLAIMED), kind_free_text='LLVM-IR facts (CFG, SSA, debug-info layouts) for every unit of the real build'),
-  dict(name='T0', path='sa/t0.py', serves_properties=['C03', 'C04', 'C05', 'C19'], kind_free_text='decoder + analyses for the T0 bytecode embedded in the generated interpreters'),
-  dict(name='TAB', path='sa/tab.py', serves_properties=['C11', 'C12', 'C13'], kind_free_text='constants lifted from IR vs references generated from the standards'),
+  dict(name='T0', path='sa/t0.py', serves_properties=['C01', 'C03', 'C04', 'C05', 'C19'], kind_free_text='decoder + analyses for the T0 bytecode embedded in the generated interpreters'),
+  dict(name='TAB', path='sa/tab.py', serves_properties=['C01', 'C11', 'C12', 'C13'], kind_free_text='constants lifted from IR vs references generated from the standards'),
   dict(name='WMW', path='sa/wmw.py', serves_properties=['C06', 'C20'], kind_free_text='who-may-write / exactly-once structural rules over the whole program IR'),
   dict(name='FOLD', path='sa/fold.py, sa/oblig.py', serves_properties=['C02', 'C03', 'C05', 'C06', 'C10', 'C11', 'C14', 'C20'], kind_free_text='hypothesis folding with opt-14 as abstract interpreter; must-conjunct dataflow'),
  ],
